@@ -7,7 +7,7 @@ import sys
 import threading
 import time
 
-from .. import common, lin, probe
+from .. import common, lin, observe, probe
 from ..sched import Recorder, Sched
 
 PROP = 'C05'
@@ -237,6 +237,28 @@ def mode_a(dc, sc, res, rng, tier, label, variant):
         for k in expired_keys:
             init.pop(k, None)
         prog = [[o for o in ops if o[0] not in ('len', 'iter', 'iter_open', 'iter_rest')] or [('get', (keys[0], 'MISS'), {})] for ops in prog]
+    if variant == 'rollbacks':
+        # removals of file-backed values next to calls that wait for the lock and then give up inside their transaction
+        # (KeyError of `del` on a key that is not there, TypeError of incr on text): what a waiting call of the same
+        # object does with its transaction must not leak into the call that holds the lock
+        shared = True
+        for k in keys:
+            if k != 'n':
+                init[k] = stamp(9, len(init), True)
+        for ci, ops in enumerate(prog):
+            for j in range(len(ops)):
+                r = rng.random()
+                k = rng.choice(keys)
+                if r < 0.3 and k != 'n':
+                    ops[j] = ('pop', (k, 'MISS'), {})
+                elif r < 0.45 and k != 'n':
+                    ops[j] = ('set', (k, stamp(ci, 500 + j, True)), {})
+                elif r < 0.6:
+                    ops[j] = ('delitem', ('never-stored',), {})
+                elif r < 0.7 and k != 'n':
+                    ops[j] = ('incr', (k, 1), {})
+        prog = [[o for o in ops if o[0] not in ('iter_open', 'iter_rest')] for ops in prog]
+        res.count('schedules_with_rollbacks_of_waiting_calls')
     if variant == 'lru':
         settings['eviction_policy'] = rng.choice(['least-recently-used', 'least-frequently-used'])
         settings['statistics'] = rng.random() < 0.5
@@ -311,6 +333,12 @@ def mode_a(dc, sc, res, rng, tier, label, variant):
             ops.append({'client': 99, 'op': 'len', 'args': (), 'kw': {}, 'call': t, 'ret': t + 1, 'kind': 'ok',
                         'result': len(fresh)})
         fresh.close()
+        # every completed operation took effect as a whole: rows, counters and value files agree once all are done
+        problems = observe.invariant(d)
+        res.count('quiescent_states_inspected')
+        if problems:
+            res.violation('after all clients finished their operations: %r' % (problems[:3],), dict(extra, label=label))
+            return
         ok = judge_history(res, ops, init, label, keys, extra)
         if ok and len(res.samples) < 2 and sch.preemptions_in_op:
             res.sample({'label': label, 'program': prog, 'init': init, 'shared_object': shared,
@@ -589,7 +617,7 @@ def run_shard(tier, seed, shard, nshards, res):
     with common.Scratch() as sc:
         for i in range(n_a):
             rng = common.rng_for(seed, 'c05a', shard, i)
-            variant = 'lru' if i % 5 == 4 else 'expired' if i % 5 == 2 else 'plain'
+            variant = 'lru' if i % 5 == 4 else 'expired' if i % 5 == 2 else 'rollbacks' if i % 5 == 3 else 'plain'
             mode_a(dc, sc, res, rng, tier, 'c05 A seed=%d shard=%d i=%d' % (seed, shard, i), variant)
             if res.counters.get('violations_raw', 0) > 5:
                 return
